@@ -37,6 +37,7 @@ type judgeCtx struct {
 	finalState byte
 	lcalls []*Call // lifecycle calls sorted by Inv
 	limits []limSeg
+	deqEvs []deqEv // successful dequeues by dispatcher tasks, in order (built on demand)
 }
 
 type limSeg struct {
@@ -416,6 +417,54 @@ func (j *judgeCtx) maxLimit(a, b uint64) int {
 	return m
 }
 
+// slotLowerBound: an instant that is surely not later than the moment the slot used by the
+// invocation of sub entered at seq was reserved (see checkConcurrency).
+func (j *judgeCtx) slotLowerBound(sub int, seq uint64) uint64 {
+	if j.deqEvs == nil {
+		j.deqEvs = []deqEv{}
+		for _, e := range j.r.qevs {
+			if e.K == 2 {
+				j.deqEvs = append(j.deqEvs, deqEv{e.Seq, e.Task, e.Sub})
+			}
+		}
+		for _, q := range j.wd.qs {
+			if q.ad != nil {
+				for _, c := range q.ad.calls {
+					if (c.Op == "deq" || c.Op == "deq-noack") && c.OK {
+						j.deqEvs = append(j.deqEvs, deqEv{c.Seq, c.Task, c.Sub})
+					}
+				}
+			}
+		}
+		sort.Slice(j.deqEvs, func(a, b int) bool { return j.deqEvs[a].seq < j.deqEvs[b].seq })
+	}
+	// the dequeue that handed out this invocation's job: the last one of sub before seq
+	k := -1
+	for i, e := range j.deqEvs {
+		if e.seq >= seq {
+			break
+		}
+		if e.sub == sub {
+			k = i
+		}
+	}
+	if k < 0 {
+		return 0
+	}
+	for i := k - 1; i >= 0; i-- {
+		if j.deqEvs[i].task == j.deqEvs[k].task {
+			return j.deqEvs[i].seq
+		}
+	}
+	return 0
+}
+
+type deqEv struct {
+	seq  uint64
+	task int
+	sub  int
+}
+
 func (j *judgeCtx) checkConcurrency() {
 	wd := j.wd
 	// walk entries/exits keeping the set of in-flight jobs per consumer world
@@ -437,12 +486,15 @@ func (j *judgeCtx) checkConcurrency() {
 			}
 			continue
 		}
-		s := wd.subs[f.Sub]
-		// The dispatch of a job begins when the dispatcher takes a concurrency slot
-		// for it, which is not observable and may precede the dequeue by any number
-		// of steps; the submission's invoke is the latest instant that is surely
-		// not later than that (weaker, but never wrong).
-		t := s.AddInv
+		// The dispatch of a job begins when the dispatcher takes a concurrency slot, which
+		// is not observable and may precede the dequeue by any number of steps. The slot
+		// is not even taken for this particular job: it is taken while *some* job is
+		// pending, and whatever the queue hands out next uses it (a job of higher
+		// priority submitted meanwhile; a later one when a purge or another event loop
+		// took the earlier ones). What is sure: a dispatcher works sequentially, so the
+		// slot was taken after the previous dequeue of the same dispatcher task (weaker
+		// than anything tied to the job, but never wrong; 0 when that is unknown).
+		t := j.slotLowerBound(f.Sub, f.Seq)
 		cur = append(cur, fl{f.Sub, t})
 		oldest := f.Seq
 		for _, x := range cur {
@@ -772,7 +824,7 @@ func (j *judgeCtx) checkPause() {
 				for i, e := range s.Entries {
 					inflight := e <= c.Ret && (i >= len(s.Exits) || s.Exits[i] > c.Ret)
 					if inflight || (e > c.Ret && e < end) {
-						t := s.AddInv
+						t := j.slotLowerBound(s.N, e)
 						if t < oldest {
 							oldest = t
 						}
@@ -1101,8 +1153,7 @@ func (j *judgeCtx) oldestInflight(seq uint64) uint64 {
 			break
 		}
 		if f.Enter {
-			s := j.wd.subs[f.Sub]
-			open[f.Sub] = s.AddInv
+			open[f.Sub] = j.slotLowerBound(f.Sub, f.Seq)
 		} else {
 			delete(open, f.Sub)
 		}
